@@ -759,6 +759,12 @@ class Table(Vector):
 		if not target_indices:
 			return # No columns selected, nothing to do
 
+		# A column that shares its storage with another vector refuses writes (AliasError).
+		# Ask every target column before the first one is written: a refused assignment changes nothing.
+		from .alias_tracker import _ALIAS_TRACKER
+		for col_idx in target_indices:
+			_ALIAS_TRACKER.check_writable(self._underlying[col_idx], id(self._underlying[col_idx]._underlying))
+
 		# --- 3. Handle Assignment ---
 		
 		# CASE A: Scalar Assignment (Broadcast)
